@@ -178,6 +178,7 @@ func runC18(c bson.D, x *Ctx) (err error) {
 		}
 		off += w
 		if susp[i] {
+			wrote := off // bytes handed to the stream before the suspend
 			so, e := us.Suspend()
 			if e != nil {
 				return fmt.Errorf("Suspend failed: %v", e)
@@ -194,9 +195,9 @@ func runC18(c bson.D, x *Ctx) (err error) {
 			}
 			ro, e := us.Resume()
 			if e != nil {
-				if so == 0 && countOf(markersColl, bson.D{{Key: "files_id", Value: id}}) == 0 {
-					// nothing had been flushed and no marker exists: the
-					// caller restarts the upload from scratch
+				if wrote == 0 && so == 0 && countOf(markersColl, bson.D{{Key: "files_id", Value: id}}) == 0 {
+					// nothing had been written at all, so no marker exists:
+					// the caller restarts the upload from scratch
 					us, e = bucket.OpenUploadStreamWithID(ctx, id, "f", uopts...)
 					if e != nil {
 						return fmt.Errorf("reopening the upload stream failed: %v", e)
